@@ -2232,6 +2232,8 @@ class Node(_protocols.NodeProtocol, _display.PrettyPrintable):
                         f"Supplied output value cannot have a producer when used for initializing a Node. "
                         f"Output: {output}. All outputs: {outputs}"
                     )
+            if len({id(output) for output in outputs}) != len(outputs):
+                raise ValueError(f"Output values must be distinct. All outputs: {outputs}")
             result = []
             for i, output in enumerate(outputs):
                 output._producer = self  # pylint: disable=protected-access
@@ -3230,6 +3232,8 @@ class Value(WithArithmeticMethods, _protocols.ValueProtocol, _display.PrettyPrin
                 raise ValueError(
                     "Initializer value cannot have name set to None. Please pop() the value from initializers first to do so."
                 )
+            if value == "":
+                raise ValueError("Initializer value cannot have an empty name.")
             graph = self._graph
             assert graph is not None
             if value in graph.initializers and graph.initializers[value] is not self:
@@ -3696,12 +3700,16 @@ class Graph(_protocols.GraphProtocol, Sequence[Node], _display.PrettyPrintable):
         for value in self.initializers.values():
             self._name_authority.register_or_name_value(value)
 
-    def _set_node_graph_to_self_and_assign_names(self, node: Node) -> Node:
-        """Set the graph reference for the node and assign names to it and its outputs if they don't have one."""
+    def _check_node_can_be_added(self, node: Node) -> None:
+        """Raise if the node belongs to another graph. Does not modify anything."""
         if node.graph is not None and node.graph is not self:
             raise ValueError(
                 f"The node '{node!r}' belongs to another graph. Please remove it first with Graph.remove()."
             )
+
+    def _set_node_graph_to_self_and_assign_names(self, node: Node) -> Node:
+        """Set the graph reference for the node and assign names to it and its outputs if they don't have one."""
+        self._check_node_can_be_added(node)
         # Give the node and its output values names if they don't not have one
         self._name_authority.register_or_name_node(node)
         for value in node._outputs:  # pylint: disable=protected-access
@@ -3853,6 +3861,10 @@ class Graph(_protocols.GraphProtocol, Sequence[Node], _display.PrettyPrintable):
         Raises:
             ValueError: If any node belongs to another graph.
         """
+        nodes = tuple(nodes)
+        # Validate every node before adopting any of them
+        for node in nodes:
+            self._check_node_can_be_added(node)
         nodes = [self._set_node_graph_to_self_and_assign_names(node) for node in nodes]
         self._nodes.extend(nodes)
 
@@ -3910,6 +3922,12 @@ class Graph(_protocols.GraphProtocol, Sequence[Node], _display.PrettyPrintable):
         """
         if isinstance(new_nodes, Node):
             new_nodes = (new_nodes,)
+        new_nodes = tuple(new_nodes)
+        # Validate the reference node and every new node before adopting any of them
+        if node.graph is not self:
+            raise ValueError(f"The node '{node!r}' does not belong to this graph.")
+        for new_node in new_nodes:
+            self._check_node_can_be_added(new_node)
         new_nodes = [self._set_node_graph_to_self_and_assign_names(node) for node in new_nodes]
         self._nodes.insert_after(node, new_nodes)
 
@@ -3927,6 +3945,12 @@ class Graph(_protocols.GraphProtocol, Sequence[Node], _display.PrettyPrintable):
         """
         if isinstance(new_nodes, Node):
             new_nodes = (new_nodes,)
+        new_nodes = tuple(new_nodes)
+        # Validate the reference node and every new node before adopting any of them
+        if node.graph is not self:
+            raise ValueError(f"The node '{node!r}' does not belong to this graph.")
+        for new_node in new_nodes:
+            self._check_node_can_be_added(new_node)
         new_nodes = [self._set_node_graph_to_self_and_assign_names(node) for node in new_nodes]
         self._nodes.insert_before(node, new_nodes)
 
